@@ -53,6 +53,29 @@ var c20Stmts = []string{
 
 var c20Sib = "add_key(from_sib, 1)\nset_measurement(\"sibm\")\n"
 
+const (
+	c20Other    = "add_key(from_other, 1)\n"
+	c20Broken   = "x = ((( this script does not parse\n"
+	c20BadCheck = "add_key(k, 1)\nno_such_function(1)\n"
+)
+
+// c20Layout writes the workspace: the selected script, a sibling reached
+// through use() that is a SYMBOLIC LINK to a file kept elsewhere (shared
+// scripts, ConfigMap-style mounts), another valid script, two scripts that do
+// not load and are neither selected nor used, a non-script file and a
+// directory named like a script.
+func c20Layout(dir, mainSrc string) {
+	for n, s := range map[string]string{"main.p": mainSrc, "other.ppl": c20Other, "broken.p": c20Broken, "badcheck.ppl": c20BadCheck, "notes.txt": "this is not a script ((("} {
+		_ = os.WriteFile(filepath.Join(dir, n), []byte(s), 0o644)
+	}
+	_ = os.Mkdir(filepath.Join(dir, "sub.p"), 0o755)
+	_ = os.Mkdir(filepath.Join(dir, "store"), 0o755)
+	_ = os.WriteFile(filepath.Join(dir, "store", "sib_source.txt"), []byte(c20Sib), 0o644)
+	if err := os.Symlink(filepath.Join("store", "sib_source.txt"), filepath.Join(dir, "sib.p")); err != nil {
+		_ = os.WriteFile(filepath.Join(dir, "sib.p"), []byte(c20Sib), 0o644)
+	}
+}
+
 type c20Input struct {
 	Name, Type, Data string
 }
@@ -280,16 +303,14 @@ func c20One(w *run.Worker, bin string, c c20Case, in c20Input) {
 	dir := filepath.Join(run.VerifDir, ".cache", "tmp", fmt.Sprintf("c20-%d-%d", os.Getpid(), w.Index()))
 	_ = os.MkdirAll(dir, 0o755)
 	defer os.RemoveAll(dir)
-	files := map[string]string{"main.p": c.Script, "sib.p": c20Sib, "other.ppl": "add_key(from_other, 1)\n", "notes.txt": "this is not a script ((("}
-	for n, s := range files {
-		_ = os.WriteFile(filepath.Join(dir, n), []byte(s), 0o644)
-	}
-	_ = os.Mkdir(filepath.Join(dir, "sub.p"), 0o755)
+	c20Layout(dir, c.Script)
 	_ = os.WriteFile(filepath.Join(dir, "input.dat"), []byte(c.Input), 0o644)
 	scripts := map[string]string{"main.p": c.Script}
 	if c.Mode == "workspace" {
 		scripts["sib.p"] = c20Sib
-		scripts["other.ppl"] = files["other.ppl"]
+		scripts["other.ppl"] = c20Other
+		scripts["broken.p"] = c20Broken
+		scripts["badcheck.ppl"] = c20BadCheck
 	}
 	exp, loadErr, runErr := c20Expected(scripts, "main.p", in)
 	r, err := c20Invoke(bin, dir, c)
@@ -416,14 +437,12 @@ func c20Replay(raw json.RawMessage) (bool, string) {
 	dir := filepath.Join(run.VerifDir, ".cache", "tmp", fmt.Sprintf("c20-replay-%d", os.Getpid()))
 	_ = os.MkdirAll(dir, 0o755)
 	defer os.RemoveAll(dir)
-	for n, s := range map[string]string{"main.p": c.Script, "sib.p": c20Sib, "other.ppl": "add_key(from_other, 1)\n"} {
-		_ = os.WriteFile(filepath.Join(dir, n), []byte(s), 0o644)
-	}
+	c20Layout(dir, c.Script)
 	_ = os.WriteFile(filepath.Join(dir, "input.dat"), []byte(c.Input), 0o644)
 	in := c20Input{Type: c.InputType, Data: c.Input}
 	scripts := map[string]string{"main.p": c.Script}
 	if c.Mode == "workspace" {
-		scripts["sib.p"] = c20Sib
+		scripts["sib.p"], scripts["other.ppl"], scripts["broken.p"], scripts["badcheck.ppl"] = c20Sib, c20Other, c20Broken, c20BadCheck
 	}
 	exp, loadErr, runErr := c20Expected(scripts, "main.p", in)
 	r, err := c20Invoke(bin, dir, c)
@@ -450,7 +469,7 @@ func init() {
 		ID:    "C20",
 		Level: "model_checking",
 		Rule: "every script of <=2 (thorough <=3) statements over 16 statements (add_key with int/str/float, set_tag, drop_key, rename, set_measurement literal and from a key with delete, default_time with and without zone, use of a sibling, exit, a run-time error, a load error, cast) " +
-			"x 7 inputs (text; line protocol with tags, without tags, without timestamp, with two points, with leading comment and blank lines, with a newline inside a string field) x {workspace directory with .p/.ppl siblings, a non-script file and a directory named like a script; single file} x {json, lineprotocol} x {run, check only}, through the real binary " +
+			"x 7 inputs (text; line protocol with tags, without tags, without timestamp, with two points, with leading comment and blank lines, with a newline inside a string field) x {workspace directory with a symlinked .p sibling, a .ppl sibling, two scripts that do not load (neither selected nor used), a non-script file and a directory named like a script; single file} x {json, lineprotocol} x {run, check only}, through the real binary " +
 			"(quick: every script with a rotating 1/13 of the input x configuration grid; thorough: the full grid for <=2 statements); oracle: stdout after the marker parsed back and compared with the same script and input run through the library API (measurement, tags, fields, time), errors reported and no output block, check-only prints nothing",
 		Assumptions: []string{"the influx line-protocol codec is trusted for parsing input and output", "text input: measurement default_name is pinned; time without an explicit timestamp is accepted within the invocation's wall-clock bracket +-2 s"},
 		Run:            c20Run,
